@@ -292,6 +292,16 @@ def read_model_check(pid, quick, which='seek'):
             else: raise SystemExit(f'TLC failed on {c}: ' + o[-800:])
     r = vlib.run_tlc('VFRead_MC.tla', pinned, workers=4, timeout=600)
     out['pinned_rules_refuted'][pinned] = bool(r['violated'])
+    if which == 'stream':
+        # the byte level under the page-level reader: _get_next_page under every schedule of the read callback (with the termination property)
+        r = vlib.run_tlc_cached('OggSync_MC.tla', 'OggSync_MC.cfg', workers=4, timeout=600)
+        out['configs']['OggSync_MC.cfg'] = dict(ok=bool(r['ok']), states=r['distinct'], wall_s=round(r['wall'], 1)); out['states'] += r['distinct']; out['transitions'] += r['generated']
+        if not r['ok']:
+            os.makedirs(vlib.REPLAY, exist_ok=True); p = os.path.join(vlib.REPLAY, f'{pid}-design-OggSync_MC.cfg.txt'); o = r['out']; i = o.find('Error:'); open(p, 'w').write(o[max(0, i):i + 6000])
+            if r['violated']: viol.append(dict(replay=p, what='design-level invariant of OggSync_MC violated: the page the reader returns depends on how the source cuts its data up, the offset is not where the sync layer reads, or the loop does not end'))
+            else: raise SystemExit('TLC failed on OggSync_MC.cfg: ' + o[-800:])
+        r = vlib.run_tlc('OggSync_MC.tla', 'OggSync_MC_pinned_bound.cfg', workers=2, timeout=300)
+        out['pinned_rules_refuted']['OggSync_MC_pinned_bound.cfg'] = bool(r['violated'])
     return out, viol
 
 def seek_model_check(pid, quick):
